@@ -761,6 +761,18 @@ class EnvelopeSuite(Suite):
         finally:
             if isinstance(old_chunk, int):
                 E.DECRYPT_CHUNK_SIZE = old_chunk
+        # history on one object: an attempt with other associated data (which must be rejected or, when the envelope
+        # carries no AAD, is the same call), then the original call again: same verdict, same plaintext
+        try:
+            try:
+                env.decrypt(b.key, (aad or b"") + b"-other")
+            except Exception:  # noqa: BLE001
+                pass
+            again = ("ok", env.decrypt(b.key, aad))
+        except Exception as e:  # noqa: BLE001
+            again = ("err", exc_info(e))
+        if again[0] != out["dec"][0] or (again[0] == "ok" and again[1] != out["dec"][1]):
+            out["again"] = [out["dec"][0], again[0]]
         return out
 
     _hook = {"installed": False, "events": None}
@@ -871,6 +883,9 @@ class EnvelopeSuite(Suite):
                 return [Finding("coq_error", "stale oracle hint: the model's call plan differs from the one the stored "
                                              "answers were computed for (regenerate the case)", sig + ":hint")]
         spec = self.spec(case, b)
+        if impl_res.get("again"):
+            fs.append(Finding("impl_vs_spec", f"decrypt() on the same Envelope object is {impl_res['again'][0]} the first time "
+                              f"and {impl_res['again'][1]} (or another plaintext) after an intervening call", sig + ":again"))
         # 2. model outcome
         if mode == "cli":
             rcode, outv = cliv[1], core.res_of(cliv[2])
